@@ -108,7 +108,7 @@ var propC04 = &modelProp{
 	nt: func(e *Env) bool {
 		return (e.flags["reopen-with-indexed-timestamp"] > 0 || e.flags["reopen-with-indexed-int-beyond-2^53"] > 0) && e.flags["op-after-reopen"] > 0
 	},
-	rule: "C01's programs with Close+Open and, in synchronous configurations, abandon+Open (no Close) at arbitrary positions; values biased to 64-bit magnitudes, nanosecond timestamps, uint64 > MaxInt64 and float edge values. Oracle: differential - the complete observation (objects, Get/Exist per uuid, AssignIndex order, search sweep: every operator x every distinct stored value and neighbours on every indexed path and 5 fixed paths, Control) taken on the old handle immediately before equals the one taken on the new handle immediately after; both equal the model; ops after the reopen (incl. unique conflicts) must get the model's outcome. Non-trivial: a reopen with >=1 indexed timestamp or indexed integer beyond 2^53, followed by >=1 op. Distinct by program hash.",
+	rule: "C01's programs with Close+Open and, in synchronous configurations, abandon+Open (no Close) at arbitrary positions; values biased to 64-bit magnitudes, nanosecond timestamps, uint64 > MaxInt64 and float edge values. Oracle: differential - the complete observation (objects, Get/Exist per uuid, AssignIndex order, search sweep: every operator x every distinct stored value and neighbours on every indexed path and 5 fixed paths, Control) taken on the old handle immediately before equals the one taken on the new handle immediately after, including the EXACT result sequence (tie order) of every index-ordered query; both equal the model; ops after the reopen (incl. unique conflicts) must get the model's outcome. Non-trivial: a reopen with >=1 indexed timestamp or indexed integer beyond 2^53, followed by >=1 op. Distinct by program hash.",
 }
 
 func init() { propC04.register() }
@@ -156,7 +156,7 @@ var propC13 = &modelProp{
 	},
 	opts: RunOpts{SweepLevel: 1, SweepEveryOp: false, Control: true},
 	nt:   func(e *Env) bool { return e.flags["query-ordered-ties-limit-cuts"] > 0 },
-	rule: "tie-heavy collections; queries that are single comparisons or And chains (Or chains are generated too but carry no order obligation) ending on an indexed path, limits 0,1,2,3,5,100,MaxUint64, with and without Reverse, consumers Collect/Assign/One/AssignOne. Oracle: results are distinct members of the model's match set, exactly min(limit,|matches|) of them, whose key sequence equals the first keys of the model's match set sorted non-increasing (non-decreasing with Reverse) - tie order left free; One = first key or ErrNoObjectFound iff no match; AssignIndex = the model's multiset of values in non-increasing order (times by UnixNano), checked after every op. Non-trivial: an ordered query whose match set has >=2 distinct keys and >=1 tie with a limit strictly between 0 and |matches|. Distinct by program hash.",
+	rule: "tie-heavy collections; queries that are single comparisons or And chains (Or chains are generated too but carry no order obligation) ending on an indexed path, limits 0,1,2,3,5,100,MaxUint64, with and without Reverse, consumers Collect/Assign/One/AssignOne. Oracle: results are distinct members of the model's match set, exactly min(limit,|matches|) of them, whose key sequence equals the first keys of the model's match set sorted non-increasing (non-decreasing with Reverse) - tie order left free; One = first key or ErrNoObjectFound iff no match; AssignIndex = the model's multiset of values in non-increasing order (times by UnixNano), checked after every op; after a refinement was derived from a search the base search is collected again and must still denote its own matches in index order. Non-trivial: an ordered query whose match set has >=2 distinct keys and >=1 tie with a limit strictly between 0 and |matches|. Distinct by program hash.",
 }
 
 func init() { propC13.register() }
@@ -204,7 +204,7 @@ var propC16 = &modelProp{
 	nt: func(e *Env) bool {
 		return e.flags["case-changed-on-store"] > 0 && e.flags["probe-case-changed"] > 0
 	},
-	rule: "strings over mixed-case ASCII, Latin/Greek/Cyrillic/Armenian letters and special-casing runes (ß ı İ ǅ ς ſ K Σ ...); upper, lower or both on top-level, nested-by-value, behind-pointer (nil and non-nil) and embedded string paths, each indexed / unindexed / unique. Oracle: stored == ToLower?(ToUpper?(supplied)) on every read path; re-saving a stored object changes nothing (idempotence); for probe p: match <=> canonical(p) compares with the stored canonical value, identically on indexed and unindexed paths; unique conflict <=> canonical values equal. Non-trivial: >=1 stored value changed by canonicalisation and >=1 probe changed by canonicalisation. Distinct by program hash.",
+	rule: "strings over mixed-case ASCII, Latin/Greek/Cyrillic/Armenian letters and special-casing runes (ß ı İ ǅ ς ſ K Σ ...); upper, lower or both on top-level, nested-by-value, behind-pointer (nil and non-nil) and embedded string paths, each indexed / unindexed / unique. Oracle: stored == ToLower?(ToUpper?(supplied)) on every read path; re-saving a stored object changes nothing (idempotence); for probe p: match <=> canonical(p) compares with the stored canonical value, identically on indexed and unindexed paths; unique conflict <=> canonical values equal. TestC16Tags drives the struct-tag path (DefaultSchema + `sod:"unique,lower"`, `upper`, `index`, tags on nested, behind-pointer and embedded fields) with the same oracle written directly on strings.ToUpper/ToLower, and checks that unique implies an index while an untagged field has none. Value sources include strings longer than 32 bytes in both cases. Non-trivial: >=1 stored value changed by canonicalisation and >=1 probe changed by canonicalisation. Distinct by program hash.",
 	after: func(e *Env) {
 		// explicit idempotence check on what the database returns
 		objs, err := e.db.All(&Doc{})
